@@ -294,6 +294,8 @@ def check_C05(tier):
     # a missing joined file / join column is an error (any LIMIT, any input); a DEFAULT of the joined table is for its rows, not for the NULL row of an OUTER JOIN
     engine_run(c, "join-errors", "BadJoinMenu", lines="LinesJ", maxlines=1, maxfiles=1, tdefs=("plain",), invs=["TypeOK", "BatchRefinesSem"], props=())
     engine_run(c, "join-default", "JoinMenu", lines="LinesJ", maxlines=2, maxfiles=1, tdefs=("udef",))
+    # several joins in one process with the joined table defined again in between (Session.tla): every statement loads the joined file under the definition in force
+    session_run(c, "redefine", ["join", "redefj", "count"], 4 if t else 3, formats=("text",))
     # a table joined with itself: plain names are the queried row, table-qualified names the joined row (WHERE / projections / aggregates / group keys on t.v alone)
     engine_run(c, "self-join", "SelfJoinMenu", lines="LinesJ", maxlines=3 if t else 2, maxfiles=1, modes=("batch", "incr"), tdefs=("selfj",))
     # the pairs a LIMIT keeps are the first of the ordered pair list, also when WHERE / DISTINCT reject earlier partners of a line
@@ -428,7 +430,7 @@ def cli_run(c, name, queries, defkinds, formats, maxargs, fileids=("fa", "fb", "
     return rep
 
 
-SESSION_CMDS = ["all", "join", "count", "group", "limit1", "selw", "dist", "rea", "reb", "createw", "bad", "exit", "dt", "dw"]
+SESSION_CMDS = ["all", "join", "count", "group", "limit1", "selw", "dist", "rea", "reb", "createw", "redefj", "bad", "exit", "dt", "dw"]
 
 
 def session_run(c, name, commands, maxcmds, formats=("text", "json", "csv"), sample=None):
@@ -820,6 +822,8 @@ def check_C18(tier):
                 env={"VH_CLI": vlib.build_cli()})
     # several statements in one process: what a statement prints does not depend on what ran before it (fresh engine, printer, DISTINCT memory, compiled patterns)
     session_run(c, "history", SESSION_CMDS, 3 if t else 2, formats=("text", "json", "csv") if t else ("text", "csv"))
+    # a table defined again between two statements that join it: the second statement sees the new definition (nothing loaded for the first is used again)
+    session_run(c, "redefine", ["join", "redefj", "count"], 4 if t else 3, formats=("text",))
     engine_sim(c, "determinism", "DistinctMenu", lines="Lines4", maxlines=10, num=1000 if t else 80)
     engine_union(c, t)
     c.rule = ENGINE_RULE + (" Determinism of the model is checked through TLC's out-degree statistics (every state has at most one successor); every replayed behaviour must equal the model's unique output; "
